@@ -53,7 +53,7 @@ def main(run):
                         "each harness has a reachability twin (post: False) that must produce a counterexample"]
     run.outside += ["weekly frequency", "hash agreement outside the 6x6 windows", "spans longer than 5 periods or |step|>3",
                     "daily keyword shifts outside the listed windows"]
-    timeout = 150 if run.tier == "quick" else 300
+    timeout = 300 if run.tier == "quick" else 600
     xhrun.run_harness(run, HARNESS, select=_select(run.tier), timeout=timeout, twin_timeout=60, finding_prefix="dates:")
     run.extra["exhaustive"] = True
     run.extra["rule"] = ("one evaluation = one CrossHair condition (harness function or its reachability twin) explored over all paths within its "
